@@ -8,14 +8,15 @@
 (* "T" = a stanza of the OTHER SSH key type that carries D's public-key tag:  *)
 (* type and tag together address a stanza, so "T" is not addressed to D |     *)
 (* "N" = a stanza of D's type whose tag is another spelling-neighbour of D's  *)
-(* tag (same bytes under a lenient base64 reading): not addressed to D) and   *)
+(* tag (same bytes under a lenient base64 reading): not addressed to D |      *)
+(* "Y" = a stanza of a foreign type that has no arguments at all) and          *)
 (* the passphrase callback answers "right" | "wrong" | "error" if asked.      *)
 (* One action per step of Unwrap: Match, Prompt, ParseKey, Validate, Cache.   *)
 (* CacheBeforeValidate = TRUE is the code before the F8 fix.                  *)
 EXTENDS Integers, Sequences, FiniteSets, TLC, Json
 
 CONSTANTS Stored,               \* "D", "A" (another key of the same type) or "O" (a key of the other SSH type)
-          Files,                \* set of files (sequences over {"D","A","U","X","T","N"})
+          Files,                \* set of files (sequences over {"D","A","U","X","T","N","Y"})
           MaxCalls,
           CacheBeforeValidate   \* deviation switch
 
